@@ -12,6 +12,10 @@ FAMILY = "canon"
 SIG_ARITH_REP = "C23:canon:arith-in-repeat-not-evaluated"
 
 
+def show(t):
+    return trunc(repr(t), 200)
+
+
 def collapse_arith(c, inside):
     """Copy of the generator tree with every multi-term arithmetic expression replaced by its value, either only
     outside repetition brackets (inside=False) or only in the types of plain fields inside brackets (inside=True).
@@ -145,7 +149,7 @@ def oracle(ctx, ops, go_out):
         if not p.ok:
             if k < len(st["files"]):
                 continue  # repository files that are not valid TL1 (counted below)
-            bad.append((src, "parse", p.err, f"C23:generated-text-rejected:{trunc(src, 60)}"))
+            bad.append((show(src), "parse", p.err, f"C23:generated-text-rejected:{trunc(src, 60)}"))
             continue
         for c in p.combs:
             n_comb += 1
@@ -154,12 +158,12 @@ def oracle(ctx, ops, go_out):
             crc = zlib.crc32(c["canon"]) & 0xffffffff
             explicit = d[cl.C_EXPL] == "1"
             if c["gen"] != crc:
-                bad.append((src, "gencrc", f"GenCrc32={c['gen']:08x} crc32(canonical)={crc:08x}", f"C23:gencrc:{nm.decode()}"))
+                bad.append((show(src), "gencrc", f"GenCrc32={c['gen']:08x} crc32(canonical)={crc:08x}", f"C23:gencrc:{nm.decode()}"))
             if not explicit and c["id"] != crc:
-                bad.append((src, "implicit", f"Crc32={c['id']:08x} crc32({c['canon']!r})={crc:08x}", f"C23:implicit:{nm.decode()}"))
+                bad.append((show(src), "implicit", f"Crc32={c['id']:08x} crc32({c['canon']!r})={crc:08x}", f"C23:implicit:{nm.decode()}"))
             sp = spec_problems(c["canon"], nm)
             if sp:
-                bad.append((src, "shape", f"{sp} in {c['canon']!r}", f"C23:shape:{sp[0]}:{nm.decode()}"))
+                bad.append((show(src), "shape", f"{sp} in {c['canon']!r}", f"C23:shape:{sp[0]}:{nm.decode()}"))
     ctx.notes["combinators_checked"] = n_comb
     ctx.notes["repo_files_not_parsed"] = [st["files"][k][0] for k in range(len(st["files"])) if not res[k].ok]
     # explicit tags of repository schemas: every name#tag of the source text is the stored tag
@@ -181,19 +185,22 @@ def oracle(ctx, ops, go_out):
     seen_sigs = set()
     for c, kind, idx in st["groups"]:
         ps = [res[j] for j in idx]
-        if not all(p.ok and len(p.combs) == 1 for p in ps):
+        if not all(p.ok for p in ps):
+            continue
+        if not all(len(p.combs) == 1 for p in ps):
+            bad.append((show(items[idx[0]][0]), "count", "generated combinator parsed as " + str([len(p.combs) for p in ps]) + " combinators", f"C23:layout-count:{c['name']}"))
             continue
         base = ps[0].combs[0]
         name = c["name"]
         if kind == "layout":
             if c["tag"] is not None and base["id"] != c["tag"]:
-                bad.append((items[idx[0]][0], "explicit", f"Crc32={base['id']:08x} written #{c['tag']:08x}", f"C23:explicit-verbatim:{name}"))
+                bad.append((show(items[idx[0]][0]), "explicit", f"Crc32={base['id']:08x} written #{c['tag']:08x}", f"C23:explicit-verbatim:{name}"))
             for j, p in zip(idx[1:], ps[1:]):
                 o = p.combs[0]
                 if o["id"] != base["id"]:
-                    bad.append((items[j][0], "layout-tag", f"tag {o['id']:08x} vs {base['id']:08x} for {items[idx[0]][0]!r}", f"C23:layout-tag:{name}"))
+                    bad.append((show(items[j][0]), "layout-tag", f"tag {o['id']:08x} vs {base['id']:08x} for {items[idx[0]][0]!r}", f"C23:layout-tag:{name}"))
                 elif o["dump"] != base["dump"]:
-                    bad.append((items[j][0], "layout-ast", f"AST differs from {items[idx[0]][0]!r}", f"C23:layout-ast:{name}"))
+                    bad.append((show(items[j][0]), "layout-ast", f"AST differs from {items[idx[0]][0]!r}", f"C23:layout-ast:{name}"))
         else:
             o = ps[1].combs[0]
             if o["id"] != base["id"]:
@@ -202,7 +209,7 @@ def oracle(ctx, ops, go_out):
                     continue  # one report per stable sig (standard_run only looks at the first 40 entries)
                 if kind == "arith-in-repeat":
                     seen_sigs.add(sig)
-                bad.append((items[idx[1]][0], kind, f"tag {o['id']:08x} ({o['canon']!r}) vs {base['id']:08x} ({base['canon']!r})", sig))
+                bad.append((show(items[idx[1]][0]), kind, f"tag {o['id']:08x} ({o['canon']!r}) vs {base['id']:08x} ({base['canon']!r})", sig))
     return bad
 
 
